@@ -442,7 +442,12 @@ def hunt2_rules(chk, repo):
     for q in (f"{RH}._handle_request", f"{RH}.handle_error"):
         f = repo.func(PROTO, q)
         builds = [c for c in prog.calls_in(f.node) if norm.raw(c.func) == "Response" and any(k.arg == "status" for k in c.keywords)]
-        fresh = [a for a in ast.walk(f.node) if isinstance(a, ast.Assign) and norm.raw(a.targets[0]) == "request._payload_writer" and isinstance(a.value, ast.Call) and norm.raw(a.value.func) == "StreamWriter"]
+        fdefs = norm.fn_defs(f.node).defs
+        def is_new_writer(v):
+            if isinstance(v, ast.Call) and norm.raw(v.func) == "StreamWriter":
+                return True
+            return isinstance(v, ast.Name) and any(dv is not None and isinstance(dv, ast.Call) and norm.raw(dv.func) == "StreamWriter" for _d, dv in fdefs.get(v.id, []))
+        fresh = [a for a in ast.walk(f.node) if isinstance(a, ast.Assign) and norm.raw(a.targets[0]) == "request._payload_writer" and is_new_writer(a.value)]
         for b_ in builds:
             # only the error responses built after the `nothing sent yet` test matter
             if not any("output_size" in norm.raw(t.test) for t in ast.walk(f.node) if isinstance(t, ast.If) and t.lineno < b_.lineno):
